@@ -605,12 +605,17 @@ func (c *Client) Do(m *Message, f func(Event)) error {
 	return nil
 }
 
-func (c *Client) delete(id transactionID) {
+// delete unregisters the transaction and reports whether it was still
+// registered (false: it has been completed already).
+func (c *Client) delete(id transactionID) bool {
 	c.mux.Lock()
-	if c.t != nil {
+	_, found := c.t[id]
+	if found {
 		delete(c.t, id)
 	}
 	c.mux.Unlock()
+
+	return found
 }
 
 type buffer struct {
@@ -732,7 +737,11 @@ func (c *Client) Start(msg *Message, handler Handler) error {
 	}
 	_, err := msg.WriteTo(c.c)
 	if err != nil && handler != nil {
-		c.delete(msg.TransactionID)
+		if !c.delete(msg.TransactionID) {
+			// Transaction is completed already (e.g. timed out or closed),
+			// so the handler got the outcome and must not get an error too.
+			return nil
+		}
 		// Stopping transaction instead of waiting until deadline.
 		if stopErr := c.a.Stop(msg.TransactionID); stopErr != nil {
 			return StopErr{
